@@ -33,13 +33,13 @@ Print Assumptions xml_terminates.
    leaves is a fixed point of Next (every further call returns ErrorToken again, nothing moves, Err()
    keeps its kind); Err() is io.EOF exactly when the cursor is at the end of the input and the
    "unexpected NULL character" error when it stands on an embedded NUL, which is never stepped over. *)
-Theorem xml_error_sticky :
+Theorem xml_eof_sticky :
   forall d s tok s', reach d s -> next s = Some (TError, tok, s') ->
     tok = None /\ xtext s' = None /\ next s' = Some (TError, None, s') /\
     (xml_err s' = 1 /\ lpos (xr s') = len d \/
      xml_err s' = 2 /\ lpos (xr s') < len d /\ getz d (lpos (xr s')) = 0).
 Proof. exact xml_error_sticky_proof. Qed.
-Print Assumptions xml_error_sticky.
+Print Assumptions xml_eof_sticky.
 
 (* C01 no over-read: every slice handed to the caller (token, Text(), AttrVal()) and the cursor lie
    inside the input proper, i.e. never include the NUL terminator.  (That no byte beyond the terminator
